@@ -46,7 +46,8 @@ CHECKS["C01"] = dict(
     text="The nonce exists only behind the entropy seam, so signing is run under a scripted random source: histories of signatures by 1-4 signers in all three API modes with tapes of boundary draws (0 - incl. several in a row -, 1, n-1, n-2), "
     "repeated draws across signatures, and digests crafted from the known next draw to force the s=0 retry, low-S negation and short / high-bit r,s. Each signature is checked by the library's verifiers (compressed and uncompressed key), "
     "an independent ECDSA implementation, OpenSSL and a BIP66 checker; the history is checked for shared r between signatures whose (key, digest) differ while the source did not repeat; retry loops must end within 4 draws after the last injected fault. "
-    "A further stratum runs 2-3 simulated caller threads signing concurrently under the baton scheduler (line-level pre-emption inside ecmath/utils/keys, freshly imported package per run) with the same per-signature and shared-r oracles.",
+    "A further stratum runs 2-3 simulated caller threads signing concurrently under the baton scheduler (line-level pre-emption inside ecmath/utils/keys, freshly imported package per run) with the same per-signature and shared-r oracles. "
+    "A fork stratum forks the signing process (real os.fork) at planned points of a history; the child continues on its own seeded entropy stream, and the shared-r oracle spans parent and children.",
     design_ref="DESIGN.md §4.1, §5 C01, §9.7",
     note="Trusted: /verif/ref/secp256k1.py, /verif/ref/ecdsa_der.py, OpenSSL. No scheduler or clock in this engine: the only simulated nondeterminism is the random source; inputs (keys, messages) are seeded. r == 0 retry is unreachable by construction.",
     technique="deterministic simulation of the entropy source (scripted boundary / repeated / crafted nonce draws behind the secrets seam) with history oracle for nonce reuse and bounded-liveness of retry loops",
